@@ -146,72 +146,86 @@ func loopbackAddr(fam int) netip.Addr {
 	return netip.MustParseAddr("::1")
 }
 
-// verdictOf evaluates a flow on a rule set. verdict is the capture decision ("untouched",
-// "REDIRECT:<port>", "TPROXY:<port>", "DROP", or a '+'-joined combination); ext adds the final fwmark and
-// conntrack zone (compared only between the two families).
-func verdictOf(rs *ruleset, f flow, src, dst netip.Addr, trace bool) (verdict, ext string, tr []string) {
-	p := &pkt{
+// verdict is the capture decision of a flow plus (ext part, compared only between the two families)
+// the final fwmark and the conntrack zone.
+type verdict struct {
+	nat    int // port of the REDIRECT taken (0 none)
+	tproxy int // port of the TPROXY taken (0 none)
+	drop   bool
+	mark   uint32
+	zone   int
+}
+
+type verdictName struct {
+	nat, tproxy int
+	drop        bool
+}
+
+var verdictNames = map[verdictName]string{}
+
+// String names the capture decision: "untouched", "REDIRECT:<port>", "TPROXY:<port>", "DROP" or a
+// '+'-joined combination.
+func (v verdict) String() string {
+	k := verdictName{v.nat, v.tproxy, v.drop}
+	if s, ok := verdictNames[k]; ok {
+		return s
+	}
+	var parts []string
+	if v.nat != 0 {
+		parts = append(parts, fmt.Sprint("REDIRECT:", v.nat))
+	}
+	if v.tproxy != 0 {
+		parts = append(parts, fmt.Sprint("TPROXY:", v.tproxy))
+	}
+	if v.drop {
+		parts = append(parts, "DROP")
+	}
+	s := "untouched"
+	if len(parts) > 0 {
+		s = strings.Join(parts, "+")
+	}
+	verdictNames[k] = s
+	return s
+}
+
+func (v verdict) ext() string { return fmt.Sprintf("%s mark=%d zone=%d", v, v.mark, v.zone) }
+
+// verdictOf evaluates a flow on a rule set.
+func verdictOf(rs *ruleset, f *flow, src, dst netip.Addr, trace bool) (v verdict, tr []string) {
+	p := pkt{
 		fam: rs.fam, proto: f.Proto, src: src, dst: dst, sport: 40000, dport: f.Dport,
 		uid: f.Owner.UID, gid: f.Owner.GID, mark: f.Mark, ctstate: f.Ct,
 	}
-	var parts []string
-	zone := -1
+	v.zone = -1
 	switch f.Kind {
 	case "out", "loop":
 		p.hook, p.out = "OUTPUT", f.Iface
-		r := rs.runHook(p, false, trace)
-		tr = append(tr, r.trace...)
-		zone = r.zone
-		if r.dropped {
-			parts = append(parts, "DROP")
-			break
-		}
-		if r.nat != "" {
-			parts = append(parts, r.nat)
-		}
-		if f.Kind == "loop" {
+		r := rs.runHook(&p, false, trace)
+		tr = r.trace
+		v.zone, v.nat, v.drop = r.zone, r.nat, r.dropped
+		if f.Kind == "loop" && !r.dropped {
 			// the same packet re-enters through lo: no socket at PREROUTING, fwmark kept, NAT (DNAT
 			// manipulation) already decided at OUTPUT, so nat is not consulted again; a REDIRECT taken at
 			// OUTPUT has rewritten the destination to the loopback address and the new port
 			p.hook, p.in, p.out, p.uid, p.gid = "PREROUTING", "lo", "", -1, -1
-			if r.nat != "" {
-				p.dst = loopbackAddr(rs.fam)
-				fmt.Sscanf(strings.TrimPrefix(r.nat, "REDIRECT:"), "%d", &p.dport)
+			if r.nat != 0 {
+				p.dst, p.dport = loopbackAddr(rs.fam), r.nat
 			}
-			r2 := rs.runHook(p, true, trace)
+			r2 := rs.runHook(&p, true, trace)
 			tr = append(tr, r2.trace...)
-			if r2.dropped {
-				parts = append(parts, "DROP")
-			} else if r2.tproxy != "" {
-				parts = append(parts, r2.tproxy)
-			}
+			v.tproxy, v.drop = r2.tproxy, r2.dropped
 		}
 	case "in":
 		p.hook, p.in, p.uid, p.gid = "PREROUTING", f.Iface, -1, -1
 		// the nat table only sees the first packet of a connection (conntrack state NEW)
-		r := rs.runHook(p, f.Ct != "NEW", trace)
+		r := rs.runHook(&p, f.Ct != "NEW", trace)
 		tr = r.trace
-		zone = r.zone
-		if r.dropped {
-			parts = append(parts, "DROP")
-			break
-		}
-		if r.tproxy != "" {
-			parts = append(parts, r.tproxy)
-		}
-		if r.nat != "" {
-			parts = append(parts, r.nat)
-		}
+		v.zone, v.nat, v.tproxy, v.drop = r.zone, r.nat, r.tproxy, r.dropped
 	default:
 		panic("flow kind " + f.Kind)
 	}
-	if len(parts) == 0 {
-		verdict = "untouched"
-	} else {
-		verdict = strings.Join(parts, "+")
-	}
-	ext = fmt.Sprintf("%s mark=%d zone=%d", verdict, p.mark, zone)
-	return verdict, ext, tr
+	v.mark = p.mark
+	return v, tr
 }
 
 // ---- the check ----
@@ -286,76 +300,96 @@ func checkConfig(res *engine.Result, c capCfg, thorough bool, only *flow, verbos
 			// a syntax the reference interpreter does not understand: infrastructure error, never skipped
 			panic(fmt.Sprintf("%v\nconfiguration %s\n%s", err, c.key(), text))
 		}
-		sets[fam] = rs
+		if len(rs.lint) == 0 {
+			sets[fam] = rs // rules that cannot be loaded are reported below and not evaluated
+		}
 		for _, l := range rs.lint {
 			violate(fmt.Sprintf("unloadable:v%d:%s", fam, lintClass(l)),
 				fmt.Sprintf("ip%stables-restore would refuse the generated rules: %s | configuration %s", map[int]string{4: "", 6: "6"}[fam], l, c.key()), nil)
 		}
 	}
+	if sets[4] == nil {
+		return st
+	}
 	pol := newPolicy(c)
 	sym := symmetric(c)
-	srcOf := func(role string) addrPair { return fixedRoles[role] }
-	roles := dstRoles(c)
 	fams := []int{4}
 	if sets[6] != nil {
 		fams = append(fams, 6)
 	}
+	type outcomeKey struct{ clause, verdict string }
+	outcomes := map[outcomeKey]int64{}
+	var pairs int64
 	one := func(f flow) {
-		var exts [2]string
+		var vs [2]verdict
 		var have [2]bool
 		for fi, fam := range fams {
-			src, dst := srcOf(f.Src)[fi], roles[f.Dst][fi]
+			src, dst := f.srcA[fi], f.dstA[fi]
 			if !src.IsValid() || !dst.IsValid() {
 				continue
 			}
 			rs := sets[fam]
-			verdict, ext, _ := verdictOf(rs, f, src, dst, false)
-			exts[fi], have[fi] = ext, true
+			v, _ := verdictOf(rs, &f, src, dst, false)
+			vs[fi], have[fi] = v, true
+			name := v.String()
 			st.evals++
-			st.distinctVerdicts[verdict] = true
-			exp := pol.expect(f, fam, dst)
-			res.Outcome(exp.clause + " => " + verdict)
+			st.distinctVerdicts[name] = true
+			exp := pol.expect(&f, fam, dst)
+			outcomes[outcomeKey{exp.clause, name}]++
 			if exp.want == "untouched" {
 				st.demandUntouched = true
 			} else if exp.want != "" {
 				st.demandRedirect = true
 			}
-			badWant := exp.want != "" && verdict != exp.want
-			badForbid := exp.forbid != "" && strings.Contains(verdict, exp.forbid)
+			badWant := exp.want != "" && name != exp.want
+			badForbid := exp.forbid != "" && strings.Contains(name, exp.forbid)
 			if verbose != nil {
-				_, _, tr := verdictOf(rs, f, src, dst, true)
-				verbose("v%d %s src=%s dst=%s: verdict %s, clause %s want=%q forbid=%q\n    %s", fam, f, src, dst, verdict, exp.clause, exp.want, exp.forbid, strings.Join(tr, "\n    "))
+				_, tr := verdictOf(rs, &f, src, dst, true)
+				verbose("v%d %s src=%s dst=%s: verdict %s, clause %s want=%q forbid=%q\n    %s", fam, f, src, dst, v.ext(), exp.clause, exp.want, exp.forbid, strings.Join(tr, "\n    "))
 			}
 			if badWant || badForbid {
-				_, _, tr := verdictOf(rs, f, src, dst, true)
+				_, tr := verdictOf(rs, &f, src, dst, true)
 				want := exp.want
 				if badForbid {
 					want = "not " + exp.forbid
 				}
-				key := fmt.Sprintf("%s:v%d:%s:%s want=%s got=%s", exp.clause, fam, f.Kind, pol.ownerClass(f), want, verdict)
+				key := fmt.Sprintf("%s:v%d:%s:%s want=%s got=%s", exp.clause, fam, f.Kind, pol.ownerClass(&f), want, name)
 				violate(key, fmt.Sprintf("packet [%s src=%s dst=%s] expected %s by the policy of configuration %s but the generated IPv%d rules give %s via: %s",
-					f, src, dst, want, c.key(), fam, verdict, strings.Join(tr, " ;; ")), &f)
+					f, src, dst, want, c.key(), fam, name, strings.Join(tr, " ;; ")), copyFlow(f))
 			}
 		}
 		// C5: corresponding packets, same verdict (when the two halves of the configuration are twins)
 		if have[0] && have[1] && sym && !(c.DNS == "v4only" && f.Dport == 53) {
-			res.Count("v4v6_pairs_compared", 1)
-			if exts[0] != exts[1] {
-				key := fmt.Sprintf("C5-v4v6-disagree:%s:%s v4=[%s] v6=[%s]", f.Kind, pol.ownerClass(f), exts[0], exts[1])
-				_, _, t4 := verdictOf(sets[4], f, srcOf(f.Src)[0], roles[f.Dst][0], true)
-				_, _, t6 := verdictOf(sets[6], f, srcOf(f.Src)[1], roles[f.Dst][1], true)
+			pairs++
+			if vs[0] != vs[1] {
+				// one key per pair of capture decisions; fwmark / zone only when the decisions agree
+				key := fmt.Sprintf("C5-v4v6-disagree:%s:%s v4=%s v6=%s", f.Kind, pol.ownerClass(&f), vs[0], vs[1])
+				if vs[0].String() == vs[1].String() {
+					key = fmt.Sprintf("C5-v4v6-disagree:%s:%s v4=[%s] v6=[%s]", f.Kind, pol.ownerClass(&f), vs[0].ext(), vs[1].ext())
+				}
+				_, t4 := verdictOf(sets[4], &f, f.srcA[0], f.dstA[0], true)
+				_, t6 := verdictOf(sets[6], &f, f.srcA[1], f.dstA[1], true)
 				violate(key, fmt.Sprintf("corresponding packets [%s] (v4 %s->%s, v6 %s->%s) get different verdicts under configuration %s: IPv4 %s via %s ;;;; IPv6 %s via %s",
-					f, srcOf(f.Src)[0], roles[f.Dst][0], srcOf(f.Src)[1], roles[f.Dst][1], c.key(), exts[0], strings.Join(t4, " ;; "), exts[1], strings.Join(t6, " ;; ")), &f)
+					f, f.srcA[0], f.dstA[0], f.srcA[1], f.dstA[1], c.key(), vs[0].ext(), strings.Join(t4, " ;; "), vs[1].ext(), strings.Join(t6, " ;; ")), copyFlow(f))
 			}
 		}
 	}
+	defer func() {
+		for k, n := range outcomes {
+			res.Outcomes[k.clause+" => "+k.verdict] += n // single-threaded worker; same effect as n calls of res.Outcome
+		}
+		res.Count("v4v6_pairs_compared", pairs)
+	}()
 	if only != nil {
+		only.resolve(c)
 		one(*only)
 	} else {
 		flows(c, thorough, one)
 	}
 	return st
 }
+
+func copyFlow(f flow) *flow { return &f } // keeps the hot loop's flow value off the heap
 
 func quiet() {
 	for _, s := range istiolog.Scopes() {
@@ -393,12 +427,17 @@ func TestC20(t *testing.T) {
 	alph := map[string]any{}
 	for _, d := range dd {
 		alph[d.name] = d.values
+		if !env.Thorough() && d.quickN > 0 {
+			alph[d.name+" (full product uses the first)"] = d.quickN
+		}
 	}
 	res.Bounds["dimension_alphabets"] = alph
 	res.Bounds["full_product_dims"] = "include x exclude x outports x uidgid x dns x ownergroups x mode" + map[bool]string{true: " x v6 x loopcidr", false: ""}[env.Thorough()]
 	res.Bounds["not_in_alphabet"] = "KUBE_VIRT_INTERFACES (always empty), owner groups given by name, fwmarks other than 0/1337/1338, conntrack RELATED/UNTRACKED, fragments/ICMP, nftables backend"
 	for i, c := range cfgs {
-		if !env.Mine(int64(i)) {
+		// deal configurations to shards by a scrambled ordinal: neighbours in the product differ in one
+		// dimension (e.g. mode), which would otherwise give every shard one value of it
+		if !env.Mine(int64((uint64(i) * 0x9E3779B97F4A7C15) >> 33)) {
 			continue
 		}
 		if env.Expired() {
